@@ -123,6 +123,7 @@ def run_one(prop, tier, seed):
     # ---- group, confirm, match against known findings
     groups = {}
     for v in rep.violations:
+        v["tier"], v["seed"] = tier, seed
         groups.setdefault(findings.signature(v), []).append(v)
     known, fixed = findings.load_known()
     known = [k for k in known if k.fields.get("property") == prop]
@@ -196,7 +197,7 @@ def replay_file(path):
     v = json.load(open(path))
     prop = v["property"]
     mod = module_for(prop)
-    ctx = Ctx(prop, os.environ.get("VERIF_TIER", "quick"), int(os.environ.get("VERIF_SEED", "0")))
+    ctx = Ctx(prop, v.get("tier", "quick"), int(v.get("seed", 0)))
     again = mod.replay(ctx, v)
     if again is None:
         print("replay: property %s HELD on the recorded case (%s)" % (prop, path))
